@@ -122,7 +122,7 @@ def main():
         "setup_cmd": "./check build",
         "hooks": {
             "guard": "mathcat_verif",
-            "enable": "RUSTFLAGS=--cfg mathcat_verif via /verif/harness/.cargo/config.toml (rustc cfg, not a cargo feature; Cargo.toml of /repo untouched)",
+            "enable": "RUSTFLAGS=--cfg mathcat_verif via /verif/harness/.cargo/config.toml and /verif/fuzz/.cargo/config.toml (rustc cfg, not a cargo feature; Cargo.toml of /repo untouched). One hook: a thread-local counter in src/speech.rs (VERIF_REPETITIVE_PREFIX_DROPPED) that C04 reads to name a listed finding by its root cause; observation only",
             "baseline_off_cmd": "/verif/tools/baseline.sh",
             "source_commits": hooks_commits,
             "add_only": True,
